@@ -203,6 +203,55 @@ def c08_typedefs(td_kind: int, td_place: int, p: int, nsdepth: int, l0: int) -> 
     return ok
 
 
+def check_bare(kind, nsdepth, p, extra):
+    """typedef written before (outside) the namespace of its template; the template's namespace holds only templates
+    without instantiation lists (extra=0), or also another declaration (extra=1..3)"""
+    nss = ("top", "mid", "low")[:nsdepth]
+    q = "".join(x + "::" for x in nss)
+    args = [ARGS[(1 + i) % len(ARGS)] for i in range(p)]
+    head = "template<%s>" % ", ".join(PARAMS[:p])
+    if kind == 0:
+        tm = "%s class Tm { Tm(%s a); %s get() const; };" % (head, PARAMS[0], PARAMS[0])
+        td = "typedef %sTm<%s> TdBare;" % (q, ", ".join(a[0] for a in args))
+        want = ("class", "TdBare", "%sTm<%s>" % (q, ", ".join(a[2] for a in args)))
+    else:
+        tm = "template<T> class Other { Other(); }; class Foreign;"
+        td = "typedef %sForeign<%s> TdBare;" % (q, args[0][0])
+        want = ("declaration", "TdBare", "%sForeign<%s>" % (q, args[0][2]))
+    filler = ["", "class Plain { Plain(); };", "enum Col { R };", "template<W = {double}> class Enumerated { Enumerated(); };"][extra]
+    text = ("namespace ns { class A { A(); }; }\nnamespace other { namespace deep { class B { B(); }; } }\n" + td + "\n" +
+            "".join("namespace %s { " % x for x in nss) + tm + " " + filler + " }" * nsdepth)
+    mod = ti.instantiate_namespace(parser.Module.parseString(text))
+    got = [(kind_of(e), e.name, e.to_cpp()) for e in mod.content if kind_of(e) in ("class", "declaration") and e.name == "TdBare"]
+    problems = []
+    if got != [want]:
+        problems.append("typedef instantiation %r, expected %r" % (got, want))
+    for e in mod.content:
+        if e.name == "TdBare" and isinstance(e, ti.InstantiatedClass):
+            if e.namespaces() != [""] + list(nss):
+                problems.append("namespaces() of the typedef'd class %r, template lives in %r" % (e.namespaces(), list(nss)))
+            if [m.to_cpp() for m in e.methods] != ["get"] or [c.name for c in e.ctors] != ["TdBare"]:
+                problems.append("members %r %r" % ([m.to_cpp() for m in e.methods], [c.name for c in e.ctors]))
+    if problems:
+        return _fail(text=text, problems=problems)
+    return True
+
+
+def c08_typedef_outside(kind: int, nsdepth: int, p: int, extra: int) -> bool:
+    """
+    typedef written outside (before) the namespace of its template, where that namespace holds nothing but
+    un-enumerated templates (or one more declaration): the instantiation still refers to Name<args> in the
+    template's namespace and reports the template's namespaces.
+    pre: 0 <= kind <= 1 and 1 <= nsdepth <= 3 and 1 <= p <= 2 and 0 <= extra <= 3
+    post: _
+    """
+    kind, nsdepth, p, extra = pick(kind, 0, 2), pick(nsdepth, 1, 4), pick(p, 1, 3), pick(extra, 0, 4)
+    with concrete():
+        ok = check_bare(kind, nsdepth, p, extra)
+    reached({"kind": kind, "nsdepth": nsdepth, "p": p, "extra": extra})
+    return ok
+
+
 def conds(tier):
     q = tier == "quick"
     t = (lambda x, y: x) if q else (lambda x, y: y)
@@ -212,4 +261,6 @@ def conds(tier):
                 bounds="1-3 class parameters x 0-%s instantiations each (third list %s) x 0-2 member-template parameters x 0-2 function-template parameters" % ("3" if not q else "2", "free, function-template list derived" if not q else "derived")),
         xh.Cond(M, "c08_typedefs", t(300, 1200), kind="shape-bounded", path_timeout=60, examples=["td_kind=1, td_place=2, p=2, nsdepth=1, l0=1", "td_kind=3, td_place=3, p=1, nsdepth=2, l0=0", "td_kind=2, td_place=0, p=1, nsdepth=0, l0=2"],
                 bounds="3 typedef targets x 4 placements x 1-2 parameters x namespace depth 0-2 x 0-2 enumerated instantiations"),
+        xh.Cond(M, "c08_typedef_outside", t(120, 600), kind="shape-bounded", examples=["kind=0, nsdepth=2, p=1, extra=0", "kind=1, nsdepth=1, p=1, extra=0", "kind=0, nsdepth=3, p=2, extra=3"],
+                bounds="class template / foreign template x namespace depth 1-3 x 1-2 parameters x 4 contents of the template's namespace"),
     ]
